@@ -68,15 +68,21 @@ func coqNatList(xs []int) string {
 	return coqList(s)
 }
 
-func coqTrace(tr [][][]int) string {
+// coqTrace prints a trace with every identity (arrival position) projected to
+// the table index of the segment value that arrived there (from 1; 0 = nil):
+// which of several arrivals of the same value is delivered is not compared.
+func coqTrace(hist []int, tr [][][]int) string {
 	steps := make([]string, len(tr))
 	for i, cbs := range tr {
 		cs := make([]string, len(cbs))
 		for j, cb := range cbs {
 			ids := make([]string, len(cb))
 			for k, id := range cb {
-				if id < 0 {
+				switch {
+				case id < 0 || id > len(hist):
 					id = 99999999 // a pointer that was never fed in
+				case id > 0:
+					id = hist[id-1] + 1
 				}
 				ids[k] = fmt.Sprint(id)
 			}
@@ -103,6 +109,15 @@ type combineObs struct {
 }
 
 func runCombine(table []segVal, hist []int) combineObs {
+	ps := make([]*pdu.DeliverSM, len(hist))
+	for j, ix := range hist {
+		ps[j] = table[ix].build()
+	}
+	return runCombinePDUs(ps)
+}
+
+// runCombinePDUs feeds the PDUs, in order, to a fresh combiner.
+func runCombinePDUs(ps []*pdu.DeliverSM) combineObs {
 	obs := combineObs{PanicAt: -1}
 	ids := map[*pdu.DeliverSM]int{}
 	var cur [][]int
@@ -120,8 +135,7 @@ func runCombine(table []segVal, hist []int) combineObs {
 		}
 		cur = append(cur, l)
 	})
-	for j, ix := range hist {
-		p := table[ix].build()
+	for j, p := range ps {
 		ids[p] = j + 1
 		cur = nil
 		if panicked, msg := guard(func() { add(p) }); panicked {
@@ -131,6 +145,31 @@ func runCombine(table []segVal, hist []int) combineObs {
 		obs.Trace = append(obs.Trace, cur)
 	}
 	return obs
+}
+
+// projection classes: which of several arrivals of one segment class (same
+// addresses, reference, total, sequence number) ends up in a delivery is not
+// compared; every arrival is projected to the first table entry of its class.
+func projOf(table []segVal, hist []int) []int {
+	first := map[string]int{}
+	canon := make([]int, len(table))
+	for i, s := range table {
+		key := fmt.Sprintf("exact|%v|%v|%v", s.Src, s.Dst, s.UDH)
+		if kind, ref, total, seq := specHeader(s.UDH); kind == hOK {
+			key = fmt.Sprintf("seg|%v|%v|%d|%d|%d", s.Src, s.Dst, ref, total, seq)
+		}
+		if j, ok := first[key]; ok {
+			canon[i] = j
+		} else {
+			first[key] = i
+			canon[i] = i
+		}
+	}
+	proj := make([]int, len(hist))
+	for j, ix := range hist {
+		proj[j] = canon[ix]
+	}
+	return proj
 }
 
 // ---------------------------------------------------------------- the oracle (written from the property, not from the code)
@@ -169,6 +208,7 @@ type epoch struct {
 	total  int
 	wide   bool        // 16-bit reference form
 	latest map[int]int // sequence number -> id of the most recent segment carrying it
+	all    map[int]map[int]bool // sequence number -> ids of all segments of this epoch carrying it
 }
 
 // judge checks one observed trace.  Safety clauses are demanded of every
@@ -268,19 +308,28 @@ func judge(table []segVal, hist []int, obs combineObs) (class, what, observed, r
 				continue
 			}
 			if e == nil {
-				e = &epoch{total: total, wide: is16bit(s.UDH), latest: map[int]int{}}
+				e = &epoch{total: total, wide: is16bit(s.UDH), latest: map[int]int{}, all: map[int]map[int]bool{}}
 				open[k] = e
 			}
 			e.latest[seq] = id
+			if e.all[seq] == nil {
+				e.all[seq] = map[int]bool{}
+			}
+			e.all[seq][id] = true
 			if len(e.latest) == e.total {
 				want := make([]int, e.total)
 				for q := 1; q <= e.total; q++ {
 					want[q-1] = e.latest[q]
 				}
 				delete(open, k)
-				if len(cbs) != 1 || fmt.Sprint(cbs[0]) != fmt.Sprint(want) {
+				// which of several arrivals of one sequence number is passed is not prescribed
+				good := len(cbs) == 1 && len(cbs[0]) == e.total
+				for q := 1; good && q <= e.total; q++ {
+					good = e.all[q][cbs[0][q-1]]
+				}
+				if !good {
 					return "combine/not-at-last-segment", "the last missing segment arrived but the message was not delivered (once, complete, in order)",
-						fmt.Sprintf("input %d: callbacks %v", id, cbs), fmt.Sprintf("exactly one callback %v", want)
+						fmt.Sprintf("input %d: callbacks %v", id, cbs), fmt.Sprintf("exactly one callback, e.g. %v", want)
 				}
 			} else if len(cbs) != 0 {
 				return "combine/premature-delivery", "a delivery was made although segments are still missing",
@@ -461,18 +510,19 @@ func c10One(r *Run, table []segVal, tkey string, hist []int, bucket string, b *c
 	if !modelCase {
 		return obs
 	}
+	proj := projOf(table, hist)
 	if obs.PanicAt >= 0 {
 		r.Case("combine "+histInput(table, hist), fmt.Sprintf("chk_combine %s %s Panic", coqSegTable(table), coqNatList(hist)))
 		return obs
 	}
 	if b != nil {
-		b.items = append(b.items, fmt.Sprintf("(%s, %s)", coqNatList(hist), coqTrace(obs.Trace)))
+		b.items = append(b.items, fmt.Sprintf("(%s, %s)", coqNatList(hist), coqTrace(hist, obs.Trace)))
 		if len(b.items) >= 150 {
 			b.flush(r)
 		}
 		return obs
 	}
-	r.Case("combine "+histInput(table, hist), fmt.Sprintf("chk_combine %s %s (Ok %s)", coqSegTable(table), coqNatList(hist), coqTrace(obs.Trace)))
+	r.Case("combine "+histInput(table, hist), fmt.Sprintf("chk_combine_proj %s %s %s (Ok %s)", coqSegTable(table), coqNatList(hist), coqNatList(proj), coqTrace(proj, obs.Trace)))
 	return obs
 }
 
@@ -516,7 +566,7 @@ func referenceCases(r *Run, table []segVal, hist []int, obs combineObs) {
 			}
 		}
 		r.Case(fmt.Sprintf("reference key-of-entry-%d %s", ki, histInput(table, hist)),
-			fmt.Sprintf("chk_reference %s %s %d%%nat %s", coqSegTable(table), coqNatList(hist), ki, coqTrace(sub)))
+			fmt.Sprintf("chk_reference %s %s %s %d%%nat %s", coqSegTable(table), coqNatList(hist), coqNatList(projOf(table, hist)), ki, coqTrace(projOf(table, hist), sub)))
 	}
 }
 
@@ -649,7 +699,7 @@ func corrC10(r *Run) {
 		lenient := r.Rng.Intn(3) == 0
 		for mi := 0; mi < m; mi++ {
 			total := r.Rng.Pick([]int{1, 2, 2, 3, 4, 5, 8, 2 + r.Rng.Intn(10)})
-			if r.Rng.Intn(40) == 0 {
+			if r.Rng.Intn(120) == 0 {
 				total = r.Rng.Pick([]int{254, 255})
 			}
 			id := ks[mi]
